@@ -157,7 +157,19 @@ def _AC2BO(AC: np.ndarray[tuple[N, N], np.dtype[np.int8]],
         valences_list_of_lists.append(possible_valence)
 
     # convert [[4],[2,1]] to [[4,2],[4,1]]
-    valences_list = itertools.product(*valences_list_of_lists)
+    # Try the combinations with the fewest atoms carrying a formal charge (or
+    # an unpaired electron) first, so that a neutral closed-shell assignment
+    # is found before e.g. S#O (valences 3, 3) is accepted for S=O.
+    valences_list = sorted(
+        itertools.product(*valences_list_of_lists),
+        key=lambda valences: sum(
+            _get_atomic_charge(
+                atom_nr, atomic_valence_electrons[atom_nr], valence
+            )
+            != 0
+            for atom_nr, valence in zip(atom_nrs, valences)
+        ),
+    )
 
     best_BO = AC.copy()
 
